@@ -172,6 +172,12 @@ func TestVerif_C09_Parallel(t *testing.T) {
 		pre := rapid.IntRange(0, 3).Draw(rt, "pre")
 		seed := rapid.Uint64().Draw(rt, "delaySeed")
 		readBack := rapid.Bool().Draw(rt, "readBack")
+		// in a third of the cases the write of the sender's own chain-key record fails now and then: a send that
+		// reports an error produced no envelope, everything said about the envelopes handed out still holds
+		failEvery := uint64(0)
+		if rapid.IntRange(0, 2).Draw(rt, "failingWrites") == 0 {
+			failEvery = uint64(rapid.IntRange(2, 9).Draw(rt, "failEvery"))
+		}
 		w := c09NewWorld(kinds, pre)
 		dec := c09WatchCounters(w.ds)
 		var opIdx atomic.Uint64
@@ -180,6 +186,19 @@ func TestVerif_C09_Parallel(t *testing.T) {
 			x := (i + seed) * 0x9E3779B97F4A7C15
 			for r := (x >> 60) & 3; r > 0; r-- {
 				runtime.Gosched()
+			}
+		}
+		var failCtr, failed atomic.Uint64
+		if failEvery > 0 {
+			w.ds.FailPut = func(key string) bool {
+				if !strings.Contains(key, dsNamespaceChainKeyForDeviceOnGroup) {
+					return false
+				}
+				if (failCtr.Add(1)+seed)%failEvery == 0 {
+					failed.Add(1)
+					return true
+				}
+				return false
 			}
 		}
 		var inflight, maxInflight atomic.Int32
@@ -213,7 +232,9 @@ func TestVerif_C09_Parallel(t *testing.T) {
 					}
 					mu.Lock()
 					if err != nil {
-						errs = append(errs, err.Error())
+						if failEvery == 0 || !strings.Contains(err.Error(), "injected datastore write failure") {
+							errs = append(errs, err.Error())
+						}
 					} else {
 						sent = append(sent, c09Sent{gi, env, p})
 					}
@@ -224,7 +245,8 @@ func TestVerif_C09_Parallel(t *testing.T) {
 		close(start)
 		wg.Wait()
 		w.ds.Hook = nil
-		desc := map[string]any{"kinds": kinds, "senders": N, "messages_each": M, "pre": pre, "delay_seed": seed, "read_back": readBack}
+		w.ds.FailPut = nil
+		desc := map[string]any{"failing_chain_key_writes": failed.Load(), "kinds": kinds, "senders": N, "messages_each": M, "pre": pre, "delay_seed": seed, "read_back": readBack}
 		if len(errs) > 0 {
 			acct.Violation("parallel/seal-error", "TestVerif_C09_Parallel", map[string]any{"scenario": desc, "errors": errs})
 			rt.Fatalf("SealEnvelope failed under concurrency: %v", errs)
@@ -235,7 +257,7 @@ func TestVerif_C09_Parallel(t *testing.T) {
 		}
 		overlap := maxInflight.Load() >= 2
 		acct.Case(overlap, fmt.Sprintf("%v|%d|%d|%d|%d|%v", kinds, N, M, pre, seed, readBack), func() any { return map[string]any{"kind": "parallel", "scenario": desc, "max_in_flight": maxInflight.Load()} },
-			"parallel", lbl(overlap, "parallel/overlapping-sends"), lbl(len(kinds) > 1, "parallel/several-groups"), lbl(readBack, "parallel/read-back"))
+			"parallel", lbl(overlap, "parallel/overlapping-sends"), lbl(len(kinds) > 1, "parallel/several-groups"), lbl(readBack, "parallel/read-back"), lbl(failed.Load() > 0, "parallel/failing-chain-key-writes"))
 	})
 }
 
